@@ -584,7 +584,7 @@ func Run(tier string) int {
 	// part 2 (exhaustive): in every state of the service explorer (all interleavings of the scenario
 	// programs with the job steps) a job parked at its begin point must find, when released, exactly
 	// the bitmasks it was handed when it started
-	svcBudget := 100 * time.Second
+	svcBudget := 200 * time.Second
 	if tier == "thorough" {
 		svcBudget = 12 * time.Minute
 	}
